@@ -45,6 +45,12 @@ KNOWN_SIG = 'ReShuffleDataset:iterator_started_while_another_in_flight'
 
 
 def build(spec):
+    from .. import sim as S_
+    with S_.building():
+        return _build(spec)
+
+
+def _build(spec):
     n = spec['n']
     if spec['source'] == 'dict':
         src = lazy_dataset.new({'k%d' % i: {'src': i} for i in range(n)})
